@@ -574,3 +574,65 @@ func (st *State) stringOfBytes(snap map[string]string, b Term) Term {
 	st.sc.emit("(assert (forall ((k Int)) (! (=> (and (<= 0 k) (< k (s-len %[1]s))) (= (gstr.at %[2]s k) %[3]s)) :pattern ((gstr.at %[2]s k)))))", b.S, s.S, st.getElem(snap, f, b, Term{"k", SInt}).S)
 	return s
 }
+
+// ---------------------------------------------------------------------------
+// lemmas: `//@ lemma name(params)` with requires/ensures and no code. The
+// obligation is requires ==> ensures for arbitrary parameters and an arbitrary
+// heap.
+
+func newLemmaExec(p *Program, con *Contract, opts *Options) *Exec {
+	return &Exec{prog: p, key: con.Target, con: con, loops: map[*ssa.BasicBlock]*Loop{}, ordinal: map[ssa.Instruction]int{}, opts: opts, allocs: map[string]*ssa.Alloc{}, maxPaths: 10}
+}
+
+func (ex *Exec) runLemma() (err error) {
+	defer func() {
+		if r := recover(); r != nil {
+			switch v := r.(type) {
+			case execAbort:
+				err = fmt.Errorf("%s: %s", ex.key, v.msg)
+			case specError:
+				err = fmt.Errorf("%s: contract error: %s", ex.key, v.msg)
+			default:
+				panic(r)
+			}
+		}
+	}()
+	c := ex.con
+	st := &State{ex: ex, sc: newScript(ex.prog.Universe), vals: map[ssa.Value]Term{}, locs: map[ssa.Value]Loc{}, tuples: map[ssa.Value][]Term{}, iters: map[ssa.Value]*MapIter{}, heap: map[string]string{}, fams: map[string]*Family{}, ghost: map[string]Term{}, visited: map[*ssa.BasicBlock]int{}, loopSeen: map[*ssa.BasicBlock]bool{}, sliceBase: map[string]sliceBaseInfo{}}
+	st.entry = map[string]string{}
+	ex.newPath(st)
+	st.sc.comment("lemma %s", ex.key)
+	st.alloc0 = st.sc.fresh("alloc0", SInt)
+	st.sc.assert(gt(st.alloc0, intLit(100000)))
+	st.alloc = st.alloc0
+	e := ex.envFor(st, c)
+	for _, b := range c.Params {
+		t := ex.typeOfBinder(c, b)
+		v := st.sc.fresh("p_"+b.Name, st.u().sortOf(t))
+		st.assumeWellFormed(v, t)
+		e.vars[b.Name] = BVal{Val: v}
+	}
+	for _, pk := range sortedKeys(ex.prog.PC) {
+		for _, ax := range ex.prog.PC[pk].Axioms {
+			ae := &Env{st: st, pkgPath: ax.PkgPath, info: ex.prog.infoFor(ax.PkgPath), vars: map[string]BVal{}, cur: st.heap, old: st.heap, allocLo: st.alloc0}
+			st.sc.assert(ae.eval(ax.Clause.Expr))
+		}
+	}
+	for _, l := range c.Lets {
+		e.vars[l.Label] = e.evalLetSafe(l)
+	}
+	for _, cl := range c.Requires {
+		st.sc.comment("requires %s", cl.Text)
+		st.sc.assert(e.eval(cl.Expr))
+	}
+	for i, cl := range c.Ensures {
+		name := fmt.Sprintf("ensures#%d", i+1)
+		if cl.Label != "" {
+			name = "ensures:" + cl.Label
+		}
+		st.check(name, "lemma", e.eval(cl.Expr), cl.Text, cl.Props, token.NoPos)
+	}
+	st.check("cover/return", "cover", tFalse, "vacuity probe: the lemma's hypotheses are satisfiable (expected sat)", nil, token.NoPos)
+	ex.finishPath(st, "lemma")
+	return nil
+}
